@@ -4,7 +4,8 @@ Every request runs the real function in its own Python thread; a baton lets exac
 thread run at a time and stops it at every file-system primitive of the protocol (rebound in
 the jit module's namespace from the outside): open(.c,'x'), os.path.exists(marker), the module
 load, code generation, the C compile (a stub writing a once-really-compiled shared object in
-two halves), open(marker,'x'), the log write, os.replace(.c,.failed).  At each stop the
+two halves), open(marker,'x') + the log write (or: the log write into a temporary file + os.replace onto the
+marker), os.replace(.c,.failed).  At each stop the
 scheduler decides Normal / Fault (the primitive raises) / Kill (the thread is abandoned).
 The sequence of granted stops is the event list replayed through Jit.step in Coq.
 
@@ -92,6 +93,13 @@ class LogFile:
     def close(self):
         return self.f.close()
 
+    def __enter__(self):
+        return self
+
+    def __exit__(self, *a):
+        self.f.close()
+        return False
+
 
 def hooked_open(path, mode="r", *a, **k):
     p = str(path)
@@ -100,6 +108,9 @@ def hooked_open(path, mode="r", *a, **k):
         return open(path, mode, *a, **k)
     if mode == "x" and p.endswith(".c.cached"):
         ch = W.stop("marker")
+        return LogFile(open(path, mode, *a, **k))
+    if mode == "w" and ".c.cached" in os.path.basename(p):
+        # temporary file that becomes the marker: the stop is at the write
         return LogFile(open(path, mode, *a, **k))
     return open(path, mode, *a, **k)
 
@@ -121,6 +132,10 @@ class OsProxy:
         return getattr(os, n)
 
     def replace(self, a, b):
+        if str(b).endswith(".c.cached"):
+            if W.stop("publish") == "Fault":
+                raise OSError(5, "Input/output error (injected)")
+            return os.replace(a, b)
         W.stop("rename")
         return os.replace(a, b)
 
@@ -257,7 +272,7 @@ def install():
 
 
 # hook -> may the scheduler inject a Fault there?  (the primitives that can fail in reality)
-FAULTABLE = {"codegen", "compile_start", "compile_end", "write_log"}
+FAULTABLE = {"codegen", "compile_start", "compile_end", "write_log", "publish"}
 
 
 def run_schedule(jit, forms, spec, timeout):
